@@ -92,6 +92,7 @@ class Regex(RegexReader):
         self._counter = 0
         self._initialize_enfa()
         self._enfa = None
+        self._enfa_accepts = None
 
     def _initialize_enfa(self):
         self._enfa = finite_automaton.EpsilonNFA()
@@ -158,7 +159,10 @@ class Regex(RegexReader):
         s_initial = self._set_and_get_initial_state_in_enfa()
         s_final = self._set_and_get_final_state_in_enfa()
         self._process_to_enfa(s_initial, s_final)
-        return self._enfa
+        # The caller owns the returned automaton
+        enfa = self._enfa
+        self._enfa = None
+        return enfa
 
     def _set_and_get_final_state_in_enfa(self):
         s_final = self._get_next_state_enfa()
@@ -247,10 +251,14 @@ class Regex(RegexReader):
 
     def _process_to_enfa_son(self, s_from, s_to, index_son):
         # pylint: disable=protected-access
-        self.sons[index_son]._counter = self._counter
-        self.sons[index_son]._enfa = self._enfa
-        self.sons[index_son]._process_to_enfa(s_from, s_to)
-        self._counter = self.sons[index_son]._counter
+        son = self.sons[index_son]
+        previous = (son._counter, son._enfa)
+        son._counter = self._counter
+        son._enfa = self._enfa
+        son._process_to_enfa(s_from, s_to)
+        self._counter = son._counter
+        # The son is a regex of its own: give it back its own state
+        son._counter, son._enfa = previous
 
     def get_tree_str(self, depth: int = 0) -> str:
         """ Get a string representation of the tree behind the regex
@@ -540,6 +548,6 @@ class Regex(RegexReader):
         True
 
         """
-        if self._enfa is None:
-            self._enfa = self.to_epsilon_nfa()
-        return self._enfa.accepts(word)
+        if self._enfa_accepts is None:
+            self._enfa_accepts = self.to_epsilon_nfa()
+        return self._enfa_accepts.accepts(word)
